@@ -184,10 +184,20 @@ pub fn gen_train_world(rng: &mut Rng, plan: &mut Plan) {
         } else {
             gen_surface(rng)
         };
-        let f = if rng.chance(1, 2) {
-            rng.pick(&seeds).1.clone()
-        } else {
-            format!("PU{},S{},newclass{}", rng.below(2), rng.below(2), rng.below(3))
+        let f = match rng.below(4) {
+            0 | 1 => rng.pick(&seeds).1.clone(),
+            2 => {
+                // a new combination of column values that occur in the seed lexicon: every
+                // per-column feature has a trained weight, so the row's total can exceed every
+                // seed row's (it may raise the largest absolute weight)
+                let pick_col = |rng: &mut Rng, i: usize| -> String {
+                    let f = &rng.pick(&seeds).1;
+                    crate::scen_bigram::csv_fields(f).get(i).cloned().unwrap_or_else(|| "*".into())
+                };
+                let cols = [pick_col(rng, 0), pick_col(rng, 1), pick_col(rng, 2)];
+                cols.iter().map(|c| csv_quote(c)).collect::<Vec<_>>().join(",")
+            }
+            _ => format!("PU{},S{},newclass{}", rng.below(2), rng.below(2), rng.below(3)),
         };
         let params = if rng.chance(1, 2) {
             "0,0,0".to_string()
@@ -672,7 +682,7 @@ impl Scenario for ExportScenario {
     }
     fn runs(&self, tier: Tier) -> u64 {
         match tier {
-            Tier::Quick => 1_000,
+            Tier::Quick => 1_500,
             Tier::Thorough => 40_000,
         }
     }
@@ -680,8 +690,9 @@ impl Scenario for ExportScenario {
         let mut plan = Plan::new("C14", seed, run);
         gen_train_world(rng, &mut plan);
         if rng.chance(2, 3) {
-            if rng.chance(1, 3) {
-                // warm the merged-model cache before the user lexicon arrives
+            if rng.chance(2, 3) {
+                // warm the merged-model cache (and whatever else an export computes) before the
+                // user lexicon arrives
                 plan.ops.push(Op::new("Gen"));
             }
             plan.ops.push(Op::new("AddUser").fault("user.csv", gen_benign(rng, 64)));
